@@ -276,6 +276,46 @@ def laws(rep, rnd, tier, vals, ivals, impl):
                                                       t if e else f, t if e else f, 1 if e else 2)
         if out != ("val", want):
             rep.violation("input", "%s gives %s, the stated equality gives %s" % (prog, out, want), check="program", program=prog, want=want)
+    # equal representatives with different histories: b is written as a literal, a reaches the same value by in-place changes made
+    # after it (or a container holding it) has been used as a set element / map key / membership operand
+    hist = 0
+    conts = [v for v in lits if datagen.kind(v) in ("list", "map", "set", "string") and len(v) > 0]
+    for _ in range(300 if tier != "thorough" else 3000):
+        v = rnd.choice(conts)
+        k = datagen.kind(v)
+        sb = gal.src(v)
+        use = rnd.choice(["def h_ = a in <<>>", "def h_ = <<a>>", "def h_ = <<<a => 1>>>", "def h_ = [a] in <<[a]>>", "def h_ = a in <<<a => 1>>>", "def h_ = <<[a, 1]>>"])
+        if k == "list":
+            i = rnd.randrange(len(v))
+            how = rnd.choice(["assign", "append", "nested", "delins"])
+            if how == "assign":
+                build = "def a = %s; a[%d] = 'other_q'; %s; a[%d] = %s" % (sb, i, use, i, gal.src(v[i]))
+            elif how == "append":
+                build = "def a = %s; %s; append(a, %s)" % (gal.src(v[:-1]), use, gal.src(v[-1]))
+            elif how == "delins":
+                build = "def a = %s; %s; delete_at(a, %d); insert_at(a, %d, %s)" % (sb, use, i, i, gal.src(v[i]))
+            else:
+                build = "def in_ = ['other_q']; def a = %s; a[%d] = in_; %s; def w_ = [a, 2] in <<[a, 2]>>; in_[0] = 7; a[%d] = %s" % (sb, i, use, i, gal.src(v[i]))
+        elif k == "map":
+            key = rnd.choice(list(v.keys())) if hasattr(v, "keys") else None
+            if key is None:
+                continue
+            build = "def a = %s; a[%s] = 'other_q'; %s; a[%s] = %s" % (sb, gal.src(key), use, gal.src(key), gal.src(v[key]))
+        elif k == "set":
+            el = rnd.choice(sorted(v, key=repr))
+            build = "def a = %s; remove(a, %s); %s; append(a, %s)" % (sb, gal.src(el), use, gal.src(el))
+        else:
+            i = rnd.randrange(len(v))
+            build = "def a = %s; a[%d] = 'Q'; %s; a[%d] = %s" % (sb, i, use, i, gal.src(v[i]))
+        prog = build + "; def b = %s; def mb = <<<>>>; mb[b] = 1; def ma = <<<>>>; ma[[a]] = 2; [a == b, b == a, a in <<b>>, b in <<a>>, a in mb, mb[a], length(<<a, b>>), " \
+                       "<<a>> == <<b>>, length(remove(<<b, 0>>, a)), [a] in <<[b]>>, ma[[b]], length(<<[a, 1], [b, 1]>>), <<a, 5>> - <<b>>]" % sb
+        out = impl.run_src(I, prog)
+        n += 1
+        hist += 1
+        want = "(list (b 1) (b 1) (b 1) (b 1) (b 1) (i 1) (i 1) (b 1) (i 1) (b 1) (i 2) (i 1) (set (i 5)))"
+        if out != ("val", want):
+            rep.violation("input", "%s gives %s, interchangeable equal representatives give %s" % (prog, out, want), check="history", program=prog, want=want)
+    rep.cov["representatives_with_history"] = hist
     # NaN (recorded finding C06-F1: a NaN decimal is not equal to itself)
     out = impl.run_src(I, "def n = decimal('nan'); [n == n, n in [n], length(<<n, decimal('nan')>>)]")
     n += 1
